@@ -2,20 +2,44 @@
 (* Block proposal of Vouch (services/beaconblockproposer/standard: service.go Prepare,          *)
 (* propose.go Propose/proposeBlock/signProposalData/unblindProposal).                           *)
 (*                                                                                              *)
-(* One behaviour = the HISTORY of one service instance: a sequence of duties (k = 1..NDuties)    *)
-(* handled one after the other by the same service (built once, cfg never changes).  The design *)
-(* carries NOTHING from one duty to the next: NextDuty starts every duty from a clean pipeline, *)
-(* whatever happened to the earlier ones (`past` = what went wrong for earlier duties on this   *)
-(* instance: prepare / graffiti / nodeclient / auction / fetch / wrongslot / sign / unblind /    *)
-(* submit / cancelled).  Every per-duty rule below therefore holds for every duty of every      *)
-(* history, and every Propose returns (no deadlock before the last duty is done; liveness       *)
-(* property EveryDutyTerminates).                                                               *)
+(* One behaviour = the HISTORY of one long-lived service instance (built once, cfg never         *)
+(* changes): a sequence of CALLS on it.  The controller (controller/standard/proposer.go) makes  *)
+(* a new duty object for every proposer duty it is told about - again after every refresh of    *)
+(* the proposer duties (dependent root change), possibly for a slot it has prepared already and *)
+(* possibly with ANOTHER of our validators - and calls, each in a goroutine of its own,          *)
+(*     Prepare(d)   at once (account + RANDAO reveal are put into the duty object d), and       *)
+(*     Propose(d)   from a scheduler job at the start of d's slot - or never, when the job was   *)
+(*                  cancelled because a refresh replaced the duty.                              *)
+(* So on one instance: Prepare(d) ... Prepare(d') for the same slot ... Propose(d'); the same    *)
+(* duty prepared twice; Prepare of the duties of an epoch running side by side; Prepare of later *)
+(* duties while a Propose is running; the Propose of a slot still waiting for its relays when    *)
+(* the Propose of the next slot starts.                                                         *)
+(*                                                                                              *)
+(* The model: duty objects (handles) 1..k, created by NewDuty (= the call of Prepare).  Each    *)
+(* handle has a pipeline of its own (the variables `dvars` + `duty`); the flat variables are the *)
+(* pipeline of handle `cur`, the call that is running; the pipelines of the others are `parked`. *)
+(* `Switch(h)` is the Go scheduler / the environment: another call goes on.  Call and return     *)
+(* are separate actions (NewDuty .. PrepRet, ProposeCall .. Ret), so calls overlap; MaxInFlight  *)
+(* bounds how many calls run at a time, MaxOpen how many duty objects are alive (MaxOpen = 1:    *)
+(* each duty is prepared and proposed before the next one exists).                              *)
+(*                                                                                              *)
+(* STATE THAT PERSISTS, by the property: what Prepare(d) put into the duty object d (account,    *)
+(* RANDAO reveal: `acct`, `randao` of d's pipeline) lasts until Propose(d).  NOTHING else: the   *)
+(* design carries nothing from one call to another, NewDuty starts every duty from a clean      *)
+(* pipeline whatever happened to the other calls (`past` = what went wrong in the calls that     *)
+(* have returned on this instance: prepare / graffiti / nodeclient / auction / fetch / wrongslot *)
+(* / sign / unblind / submit / cancelled) and whatever the other handles hold.  Every per-duty   *)
+(* rule below is judged on the pipeline of each handle against THAT handle's duty, in every      *)
+(* history, and every call returns (no deadlock; liveness property EveryDutyTerminates).         *)
 (*                                                                                              *)
 (* One action per interface call the code makes (the arguments are what the code passed, the    *)
 (* outcome is what the environment answered), plus the environment's own steps:                 *)
+(*   NewDuty         the controller makes a duty object and calls Prepare for it                *)
 (*   AccountsCall    Prepare: ValidatingAccountsForEpochByIndex                                 *)
 (*   RandaoCall      Prepare: RANDAORevealSigner.SignRANDAOReveal                               *)
+(*   PrepRet         Prepare returns                                                            *)
 (*   ProposeCall     the controller calls Propose (validateDuty decides whether anything follows)*)
+(*   Drop            the controller cancels the job of a prepared duty: it is never proposed    *)
 (*   GraffitiCall    graffitiProvider.Graffiti                (only if a provider is configured)*)
 (*   NodeClientCall  proposalProvider.(NodeClientProvider).NodeClient   (graffiti has {{CLIENT}})*)
 (*   AuctionCall     blockAuctioneer.AuctionBlock           (only if an auctioneer is configured)*)
@@ -25,7 +49,7 @@
 (*   Cancel          the job context ends (the environment; production contexts have no deadline)*)
 (*   SubmitCall      proposalSubmitter.SubmitProposal                                           *)
 (*   Ret             Propose returns                                                            *)
-(*   NextDuty        the controller hands the next duty to the same service instance            *)
+(*   Switch          another call of the instance goes on (environment)                         *)
 (*                                                                                              *)
 (* The actions only have *structural* preconditions (the order of the pipeline) and record      *)
 (* whatever arguments they are given.  `Next` instantiates them with the arguments the code is  *)
@@ -49,14 +73,20 @@ CONSTANTS DutySlots,        \* slots the first duty of a service instance can ha
           Outcomes,         \* what one UnblindProposal call can do
           MaxCalls,         \* bound on calls per relay (the code tries three times)
           Dslots,           \* a returned proposal is for slot (duty slot + d), d \in Dslots
-          NDuties,          \* length of the history: duties handled by one service instance
-          SlotGaps,         \* the next duty is for slot (this duty's slot + g), g \in SlotGaps
+          NDuties,          \* length of the history: duty objects handed to one service instance
+          SlotGaps,         \* the next duty is for slot (slot of the newest duty + g), g \in SlotGaps
+                            \* (0: a slot that was prepared already, for the same or another validator)
+          MaxOpen,          \* duty objects alive at a time (created, neither proposed nor dropped)
+          MaxInFlight,      \* calls (Prepare / Propose) running at a time
+          InitCfgs,         \* the service configurations explored (Cfgs: all nine; a bound of the model)
           \* bounds of the model only: the environment of the duties after the first ranges over these
           LaterAllChoices, LaterVersions, LaterOutcomes, LaterDslots
 
-VARIABLES k,          \* number of the duty this service instance is handling (1..NDuties)
-          past,       \* what went wrong for the earlier duties of this instance (set of FailureTags)
-          duty,       \* [slot, v]
+VARIABLES k,          \* number of duty objects (handles) made so far (1..NDuties)
+          cur,        \* the handle whose call goes on: the flat variables below are ITS pipeline
+          parked,     \* [1..NDuties -> pipeline of the handle | Nil]: the other handles
+          past,       \* what went wrong in the calls that have returned on this instance (set of FailureTags)
+          duty,       \* [slot, v] of handle cur
           cfg,        \* [graffiti, nodeclient, auctioneer, unblindAll : BOOLEAN]  (what the service was built
                       \*  with; nodeclient: the proposal provider implements NodeClientProvider)
           pc,
@@ -79,8 +109,8 @@ VARIABLES k,          \* number of the duty this service instance is handling (1
 \* the pipeline of one duty
 dvars == <<pc, acct, randao, graffiti, nodeclient, auction, preq, prop, sreq, sig, calls, sent, fulls,
            cancelled, submitted, subout>>
-\* the service instance and its history
-hvars == <<k, past, duty, cfg>>
+\* the service instance, its history and who is running (duty: a call never changes its duty)
+hvars == <<k, cur, parked, past, duty, cfg>>
 vars == <<hvars, dvars>>
 
 Epoch(s) == s \div SlotsPerEpoch
@@ -135,6 +165,11 @@ ProposePcs == {"invalid", "graffiti", "nodeclient", "auction", "proposal", "conf
 Cfgs == {c \in [graffiti : BOOLEAN, nodeclient : BOOLEAN, auctioneer : BOOLEAN, unblindAll : BOOLEAN] :
             (c.unblindAll => c.auctioneer) /\ (c.nodeclient => c.graffiti)}
 
+\* values for InitCfgs (InitCfgs <- AllCfgs / BuilderCfgs)
+AllCfgs == Cfgs
+\* graffiti provider and auctioneer configured (every step of the pipeline exists)
+BuilderCfgs == {c \in Cfgs : c.graffiti /\ c.auctioneer /\ ~c.unblindAll /\ ~c.nodeclient}
+
 CleanPipeline ==
     /\ pc = "start"
     /\ acct = NoAcct /\ randao = NoRandao /\ graffiti = "none" /\ nodeclient = "none" /\ auction = NoAuction
@@ -150,10 +185,46 @@ ResetPipeline ==
     /\ calls' = [r \in Relays |-> 0] /\ sent' = {} /\ fulls' = {}
     /\ cancelled' = FALSE /\ submitted' = NoSub /\ subout' = "none"
 
+\* the pipeline of handle cur as a value (to be parked), and back
+Pipe == [duty |-> duty, pc |-> pc, acct |-> acct, randao |-> randao, graffiti |-> graffiti, nodeclient |-> nodeclient,
+         auction |-> auction, preq |-> preq, prop |-> prop, sreq |-> sreq, sig |-> sig, calls |-> calls, sent |-> sent,
+         fulls |-> fulls, cancelled |-> cancelled, submitted |-> submitted, subout |-> subout]
+
+\* a handle that is over keeps nothing but its duty
+OverPipe(d) == [duty |-> d, pc |-> "done", acct |-> NoAcct, randao |-> NoRandao, graffiti |-> "none", nodeclient |-> "none",
+                auction |-> NoAuction, preq |-> NoPreq, prop |-> NoProp, sreq |-> NoSreq, sig |-> 0,
+                calls |-> [r \in Relays |-> 0], sent |-> {}, fulls |-> {}, cancelled |-> FALSE, submitted |-> NoSub,
+                subout |-> "none"]
+
+\* Propose has returned ("done") / the duty was dropped before it was proposed ("dropped")
+OverPcs == {"done", "dropped"}
+
+ParkCur == IF pc \in OverPcs THEN OverPipe(duty) ELSE Pipe
+
+Load(p) ==
+    /\ duty' = p.duty /\ pc' = p.pc /\ acct' = p.acct /\ randao' = p.randao /\ graffiti' = p.graffiti
+    /\ nodeclient' = p.nodeclient /\ auction' = p.auction /\ preq' = p.preq /\ prop' = p.prop /\ sreq' = p.sreq
+    /\ sig' = p.sig /\ calls' = p.calls /\ sent' = p.sent /\ fulls' = p.fulls /\ cancelled' = p.cancelled
+    /\ submitted' = p.submitted /\ subout' = p.subout
+
+Nil == [pc |-> "nil"]
+NoneParked == [h \in 1..NDuties |-> Nil]
+
+Handles == 1..k
+PcOf(h) == IF h = cur THEN pc ELSE parked[h].pc
+DutyOf(h) == IF h = cur THEN duty ELSE parked[h].duty
+
+\* a call is running on the handle: Prepare ...
+PreparePcs == {"start", "randao", "prepfailed", "prepared"}
+\* ... Prepare has returned, Propose has not been called: the duty came out with account and reveal / without
+IdlePcs == {"ready", "unready"}
+InFlight == {h \in Handles : PcOf(h) \in PreparePcs \cup ProposePcs}
+Open == {h \in Handles : PcOf(h) \notin OverPcs}
+
 Init ==
-    /\ k = 1 /\ past = {}
+    /\ k = 1 /\ cur = 1 /\ parked = NoneParked /\ past = {}
     /\ duty \in [slot : DutySlots, v : Validators]
-    /\ cfg \in Cfgs
+    /\ cfg \in InitCfgs
     /\ CleanPipeline
 
 -----------------------------------------------------------------------------
@@ -173,10 +244,29 @@ RandaoCall(account, slot, out, token) ==
     /\ UNCHANGED <<hvars, acct, graffiti, nodeclient, auction, preq, prop, sreq, sig, calls, sent, fulls,
                    cancelled, submitted, subout>>
 
+\* Prepare returns.  The duty object now holds what the calls of this Prepare obtained: account and reveal
+\* ("ready") or not ("unready").  A Prepare that returned without asking anything (not the design; the
+\* property does not forbid an instance that remembers what it obtained for this very validator and slot)
+\* counts as "ready": what it then ASKS THE SIGNER is judged by OnlyDutySigner like everybody else's.
+PrepRet ==
+    /\ pc \in PreparePcs
+    /\ pc' = IF pc \in {"prepared", "start"} THEN "ready" ELSE "unready"
+    /\ past' = past \cup (IF pc = "prepfailed" THEN {"prepare"} ELSE {})
+    /\ UNCHANGED <<k, cur, parked, duty, cfg, acct, randao, graffiti, nodeclient, auction, preq, prop, sreq, sig,
+                   calls, sent, fulls, cancelled, submitted, subout>>
+
 \* A duty without account or RANDAO reveal is not proposed for (validateDuty).
 ProposeCall ==
-    /\ pc \in {"randao", "prepfailed", "prepared"}
-    /\ pc' = IF pc = "prepared" THEN AfterValidate ELSE "invalid"
+    /\ pc \in IdlePcs
+    /\ Cardinality(InFlight) < MaxInFlight
+    /\ pc' = IF pc = "ready" THEN AfterValidate ELSE "invalid"
+    /\ UNCHANGED <<hvars, acct, randao, graffiti, nodeclient, auction, preq, prop, sreq, sig, calls, sent, fulls,
+                   cancelled, submitted, subout>>
+
+\* The job of a prepared duty is cancelled (a refresh replaced the duty): it is never proposed.
+Drop ==
+    /\ pc \in IdlePcs
+    /\ pc' = "dropped"
     /\ UNCHANGED <<hvars, acct, randao, graffiti, nodeclient, auction, preq, prop, sreq, sig, calls, sent, fulls,
                    cancelled, submitted, subout>>
 
@@ -246,19 +336,13 @@ SubmitCall(desc, out) ==
     /\ UNCHANGED <<hvars, acct, randao, graffiti, nodeclient, auction, preq, prop, sreq, sig, calls, sent, fulls,
                    cancelled>>
 
-Ret ==
-    /\ pc \in ProposePcs
-    /\ pc' = "done"
-    /\ UNCHANGED <<hvars, acct, randao, graffiti, nodeclient, auction, preq, prop, sreq, sig, calls, sent, fulls,
-                   cancelled, submitted, subout>>
-
 -----------------------------------------------------------------------------
 (* The history of a service instance. *)
 
 FailureTags == {"prepare", "graffiti", "nodeclient", "auction", "fetch", "wrongslot", "sign", "unblind",
                 "submit", "cancelled"}
 
-\* what went wrong for the current duty (read when it is over)
+\* what went wrong for the duty of handle cur (read when its Propose returns)
 Failures ==
     {t \in FailureTags :
         \/ t = "prepare"    /\ (acct.out \in {"err", "empty"} \/ randao.out = "err")
@@ -272,29 +356,52 @@ Failures ==
         \/ t = "submit"     /\ subout = "err"
         \/ t = "cancelled"  /\ cancelled}
 
-\* The same service instance is handed its next duty once Propose has returned for the current one.
-\* Nothing but the configuration is carried over: the new duty starts from a clean pipeline whatever
-\* `Failures` says about the duty that is over and `past` about the ones before it.
-NextDuty(slot, v) ==
-    /\ pc = "done"
-    /\ k < NDuties
-    /\ k' = k + 1
+\* Propose returns.  `past` remembers what went wrong (it bounds nothing and the design never reads it: it
+\* makes TLC explore the later calls from every distinct history).
+Ret ==
+    /\ pc \in ProposePcs
+    /\ pc' = "done"
     /\ past' = past \cup Failures
+    /\ UNCHANGED <<k, cur, parked, duty, cfg, acct, randao, graffiti, nodeclient, auction, preq, prop, sreq, sig,
+                   calls, sent, fulls, cancelled, submitted, subout>>
+
+\* The controller makes a new duty object and calls Prepare for it on the same service instance - whatever
+\* the other handles are doing (within MaxOpen / MaxInFlight).  Nothing but the configuration reaches the
+\* new call: it starts from a clean pipeline.  The call that was going on is parked.
+NewDuty(slot, v) ==
+    /\ k < NDuties
+    /\ Cardinality(Open) < MaxOpen
+    /\ Cardinality(InFlight) < MaxInFlight
+    /\ k' = k + 1
+    /\ cur' = k + 1
+    /\ parked' = [parked EXCEPT ![cur] = ParkCur]
     /\ duty' = [slot |-> slot, v |-> v]
     /\ ResetPipeline
-    /\ UNCHANGED cfg
+    /\ UNCHANGED <<past, cfg>>
 
-\* the history is over (keeps TLC's deadlock check meaningful: a state without successor is a Propose
-\* that cannot return or a duty that cannot be started)
+\* Another call of the instance goes on (the Go scheduler; the environment).
+Switch(h) ==
+    /\ h \in Handles /\ h # cur
+    /\ parked[h].pc # "done"
+    /\ cur' = h
+    /\ parked' = [parked EXCEPT ![cur] = ParkCur, ![h] = Nil]
+    /\ Load(parked[h])
+    /\ UNCHANGED <<k, past, cfg>>
+
+\* the history is over (keeps TLC's deadlock check meaningful: a state without successor is a call that
+\* cannot return or a duty that cannot be started)
 Finished ==
-    /\ pc = "done" /\ k = NDuties
+    /\ k = NDuties /\ Open = {}
     /\ UNCHANGED vars
 
 -----------------------------------------------------------------------------
 (* The design: the arguments the code is supposed to pass, and when it may stop. *)
 
 \* bounds of the model: the first duty of an instance ranges over the full sets, later ones over reduced sets
-Bound(first, later) == IF k = 1 THEN first ELSE later
+Bound(first, later) == IF cur = 1 THEN first ELSE later
+
+\* the newest duty object's slot
+LastSlot == DutyOf(k).slot
 
 \* Env_BlindedNeedsAuction: a beacon node only hands out a blinded proposal when the auction produced
 \* results (a blinded proposal without them is accounted under C16).
@@ -309,11 +416,26 @@ MayReturn ==
     \/ pc = "signed" /\ sig # 0 /\ prop.blinded /\ (cancelled \/ Cand = {}) \* nothing to submit
     \/ pc = "submitted"
 
-\* the design never reads k or past except to bound the environment
-Next ==
+\* The design never reads k, cur, past or parked except to bound the environment; a call reads its own
+\* duty and what its own pipeline holds.  In three parts, so that a control model (Memo_Proposer.tla) can
+\* replace one of them.
+
+\* Prepare: the account of the duty's validator for the duty's epoch, the reveal for the duty's slot
+PrepareSteps ==
     \/ \E out \in {"ok", "err", "empty"} : AccountsCall(Epoch(duty.slot), <<duty.v>>, out)
     \/ \E out \in {"ok", "err"} : RandaoCall(duty.v, duty.slot, out, 1)
+    \/ pc \in {"prepfailed", "prepared"} /\ PrepRet
+
+\* the block signature is asked of `account` (the design: the duty's validator's)
+SignStep(account) ==
+    /\ prop.slot = duty.slot
+    /\ \E out \in {"ok", "err"} :
+         SignCall(account, duty.slot, duty.v, Root(prop.id, "parent"), Root(prop.id, "state"),
+                  Root(prop.id, "body"), out, 1)
+
+OtherSteps ==
     \/ ProposeCall
+    \/ Drop
     \/ \E out \in {"static", "template", "err"} : GraffitiCall(out)
     \/ \E out \in {"ok", "err"} : NodeClientCall(out)
     \/ pc = "auction" /\ AuctionCall("err", {}, {})
@@ -324,10 +446,6 @@ Next ==
        /\ \/ ProposalCall(duty.slot, graffiti \notin {"static", "template"}, randao.token, "err", NoProp)
           \/ \E p \in Proposals :
                 ProposalCall(duty.slot, graffiti \notin {"static", "template"}, randao.token, "ok", p)
-    \/ /\ prop.slot = duty.slot
-       /\ \E out \in {"ok", "err"} :
-            SignCall(duty.v, duty.slot, duty.v, Root(prop.id, "parent"), Root(prop.id, "state"),
-                     Root(prop.id, "body"), out, 1)
     \/ /\ pc = "signed" /\ prop.blinded
        /\ \E r \in Cand : \E out \in Bound(Outcomes, LaterOutcomes) : UnblindCall(r, SignedQ(prop, sig), out)
     \/ pc = "signed" /\ sig # 0 /\ prop.blinded /\ Cancel
@@ -336,13 +454,18 @@ Next ==
     \/ /\ sig # 0 /\ prop.blinded
        /\ \E f \in fulls : \E out \in {"ok", "err"} : SubmitCall(RelayDesc(f.relay, f.q), out)
     \/ MayReturn /\ Ret
-    \/ \E g \in SlotGaps : \E v \in Validators : NextDuty(duty.slot + g, v)
+    \/ \E g \in SlotGaps : \E v \in Validators : NewDuty(LastSlot + g, v)
+    \/ \E h \in Handles : Switch(h)
     \/ Finished
+
+Next == PrepareSteps \/ SignStep(duty.v) \/ OtherSteps
 
 Spec == Init /\ [][Next]_vars
 
 \* every step that can be taken is eventually taken: the environment answers every call, the context of a
-\* proposal whose relays do not deliver eventually ends, the controller hands over the next duty
+\* proposal whose relays do not deliver eventually ends, the controller hands over the next duty.
+\* (Checked with MaxOpen = 1: with several open handles weak fairness of Next does not rule out an endless
+\*  Switch between two of them; for those configurations the deadlock check stands.)
 LiveSpec == Spec /\ WF_vars(Next)
 
 -----------------------------------------------------------------------------
@@ -350,19 +473,24 @@ LiveSpec == Spec /\ WF_vars(Next)
 
 TypeOK ==
     /\ k \in 1..NDuties
+    /\ cur \in Handles
+    /\ \A h \in 1..NDuties : (parked[h] = Nil) <=> (h = cur \/ h > k)
+    /\ Cardinality(Open) <= MaxOpen /\ Cardinality(InFlight) <= MaxInFlight
     /\ past \subseteq FailureTags
     /\ cfg \in Cfgs
-    /\ pc \in {"start", "randao", "prepfailed", "prepared", "done"} \cup ProposePcs
+    /\ pc \in PreparePcs \cup IdlePcs \cup ProposePcs \cup OverPcs
     /\ graffiti \in {"none", "static", "template", "err"}
     /\ nodeclient \in {"none", "ok", "err"}
     /\ auction.kind \in {"none", "err", "results"}
     /\ cancelled \in BOOLEAN
     /\ \A r \in Relays : calls[r] \in 0..MaxCalls
 
-\* the duty came out of Prepare with an account and a RANDAO reveal
+\* the duty came out of its Prepare with an account and a RANDAO reveal
 Prepared == randao.out = "ok"
 
-\* "asks for a RANDAO reveal and for a block signature only for that duty's validator and slot"
+\* "asks for a RANDAO reveal and for a block signature only for that duty's validator and slot": judged per
+\* duty object - whatever was asked of the signer in the calls for handle cur names the duty of handle cur
+\* (not: of some duty this instance has seen).
 OnlyDutySigner ==
     /\ randao # NoRandao => (randao.account = duty.v /\ randao.slot = duty.slot)
     /\ sreq # NoSreq => (sreq.account = duty.v /\ sreq.v = duty.v /\ sreq.slot = duty.slot)
@@ -417,13 +545,15 @@ CompletesDuty ==
 PerDuty == /\ OnlyDutySigner /\ SignedIsSelected /\ SubmittedIntact /\ NothingWithoutUnblind
            /\ DegradesNotSkips /\ CompletesDuty
 
-\* The history rule, spelled out: the rules of a duty do not depend on what happened to earlier duties of
-\* the same service instance, and a duty starts with nothing left over from them.
+\* The history rule, spelled out: the rules of a duty depend neither on what happened in the earlier calls on
+\* the same service instance nor on what the other duty objects hold (parked: the same slot prepared for
+\* another validator, the same duty prepared before, a call that is still running), and a Prepare starts
+\* with nothing left over from them.
 HistoryIndependent ==
     /\ past \in SUBSET FailureTags => PerDuty
     /\ pc = "start" => CleanPipeline
 
-\* every duty of the history is dealt with and Propose returns for it (checked under LiveSpec; together with
-\* TLC's deadlock check: no reachable state in which a Propose cannot proceed, whatever the history)
-EveryDutyTerminates == <>(pc = "done" /\ k = NDuties)
+\* every duty of the history is dealt with and every call returns (checked under LiveSpec; together with
+\* TLC's deadlock check: no reachable state in which a call cannot proceed, whatever the history)
+EveryDutyTerminates == <>(k = NDuties /\ Open = {})
 =============================================================================
